@@ -97,6 +97,12 @@ Definition update_last_cmid (k : skey) (ts : time) (data : string) (cmid : N) (s
   | None => None
   end.
 
+(* the repaired applyRobustMessage (fix 92a4e2e): a second copy of the session's last client message is skipped
+   when the log is applied.  IRCServer.LastPostMessage answers 0 for an unknown session. *)
+Definition is_retry (k : skey) (cmid : N) (sv : server) : bool :=
+  negb (cmid =? 0)%N &&
+  match sv_sessions sv !! k with Some s => (s_cmid s =? cmid)%N | None => false end.
+
 (* ---- log entries -------------------------------------------------------------------------------------- *)
 Inductive entry :=
 | ECreate (id : N) (unixnano : Z) (auth : string)
@@ -152,6 +158,7 @@ Definition apply_entry (e : env) (sv : server) (en : entry) : outcome :=
       end
   | EMessage id un session cmid remoteAddr data =>
       let k := (session, 0%N) in
+      if is_retry k cmid sv then OOk sv [] else
       match update_last_cmid k (timestamp id un) data cmid sv with
       | None => OSkip sv
       | Some sv1 =>
